@@ -7,7 +7,6 @@ import (
 	"os"
 	"path"
 	"path/filepath"
-	"regexp"
 	"runtime/debug"
 	"sort"
 	"strings"
@@ -27,11 +26,8 @@ var TBRun func(args []string) error
 type reported struct {
 	File    string
 	Message string
-	quoted  []string
 	used    bool
 }
-
-var quotedRE = regexp.MustCompile(`"([^"]*)"`)
 
 func parseText(out string) []*reported {
 	var rs []*reported
@@ -65,45 +61,90 @@ func parseJSON(out string) ([]*reported, error) {
 	return rs, nil
 }
 
-var quotedCount = map[string]int{"deleting service": 1, "removing method": 2, "adding a required field": 2, "optional to required": 2, "changing type": 4}
-
-// match pairs expected diagnostics with reported ones.
-func match(exp []progen.Diag, rs []*reported) (missed []string, extra []string) {
-	for _, r := range rs {
-		r.quoted = nil
-		for _, m := range quotedRE.FindAllStringSubmatch(r.Message, -1) {
-			r.quoted = append(r.quoted, m[1])
+// tokens splits a message into identifier-like words (whatever the quoting).
+func tokens(msg string) map[string]bool {
+	out := map[string]bool{}
+	cur := []rune{}
+	flush := func() {
+		if len(cur) > 0 {
+			out[string(cur)] = true
+			cur = cur[:0]
 		}
+	}
+	for _, r := range msg {
+		if r == '_' || r == '.' || (r >= '0' && r <= '9') || (r >= 'a' && r <= 'z') || (r >= 'A' && r <= 'Z') {
+			cur = append(cur, r)
+		} else {
+			flush()
+		}
+	}
+	flush()
+	return out
+}
+
+// match pairs expected diagnostics with reported lines by maximum bipartite
+// matching: a line can stand for an expected diagnostic if it is attributed to
+// the expected file and mentions every expected name as a word. The wording and
+// quoting of messages is not part of the property and is not looked at.
+func match(exp []progen.Diag, rs []*reported) (missed []string, extra []string) {
+	toks := make([]map[string]bool, len(rs))
+	for i, r := range rs {
+		toks[i] = tokens(r.Message)
 		r.used = false
 	}
-	for _, e := range exp {
-		found := false
-		for _, r := range rs {
-			if r.used || len(r.quoted) != quotedCount[e.Rule] {
-				continue
+	can := func(e progen.Diag, i int) bool {
+		r := rs[i]
+		if e.BaseOnly {
+			if r.File != e.File && path.Base(r.File) != e.File {
+				return false
 			}
-			if e.BaseOnly {
-				if r.File != e.File && path.Base(r.File) != e.File {
-					continue
-				}
-			} else if r.File != e.File {
-				continue
-			}
-			// the names come first in the message, in the order (member, container)
-			ok := true
-			for i, n := range e.Names {
-				if i >= len(r.quoted) || r.quoted[i] != n {
-					ok = false
-				}
-			}
-			if ok {
-				r.used = true
-				found = true
-				break
+		} else if r.File != e.File {
+			return false
+		}
+		for _, n := range e.Names {
+			if !toks[i][n] {
+				return false
 			}
 		}
-		if !found {
-			missed = append(missed, e.String())
+		return true
+	}
+	owner := make([]int, len(rs)) // line -> expected index
+	for i := range owner {
+		owner[i] = -1
+	}
+	var try func(e int, seen []bool) bool
+	try = func(e int, seen []bool) bool {
+		for i := range rs {
+			if seen[i] || !can(exp[e], i) {
+				continue
+			}
+			seen[i] = true
+			if owner[i] < 0 || try(owner[i], seen) {
+				owner[i] = e
+				return true
+			}
+		}
+		return false
+	}
+	matched := make([]bool, len(exp))
+	for e := range exp {
+		if try(e, make([]bool, len(rs))) {
+			matched[e] = true
+		}
+	}
+	// owners may have been reassigned: recompute who is matched
+	for e := range matched {
+		matched[e] = false
+	}
+	for i, e := range owner {
+		if e >= 0 {
+			matched[e] = true
+			rs[i].used = true
+		}
+	}
+	for e, ok := range matched {
+		if !ok {
+			missed = append(missed, exp[e].String())
 		}
 	}
 	for _, r := range rs {
